@@ -90,7 +90,12 @@ package util
 
 // ---- C11: processDependencyEnabled evaluates tags and conditions on a private, coalesced copy of the values
 
+// GdepsPruned[c]: the disabled dependencies of chart c have been removed (a call log: set by
+// processDependencyEnabled, required by the import of values — a disabled dependency must not
+// contribute default or exported values)
 //@ func processDependencyEnabled
+//@   records GdepsPruned
+//@   marks GdepsPruned[c] && (forall x ref :: old(GdepsPruned)[x] ==> GdepsPruned[x])
 //@   props C11
 //@   requires c != nil && c.Metadata != nil && (forall j int :: 0 <= j && j < len(c.Metadata.Dependencies) ==> c.Metadata.Dependencies[j] != nil)
 
@@ -151,3 +156,25 @@ package util
 //@   props C20
 //@   requires c != nil && c.Metadata != nil && (forall j int :: 0 <= j && j < len(c.Metadata.Dependencies) ==> c.Metadata.Dependencies[j] != nil)
 //@   loop 1 invariant [dependencies-stay-valid] c != nil && c.Metadata != nil && c.Metadata.Dependencies == old(c.Metadata.Dependencies) && (forall j int :: 0 <= j && j < len(c.Metadata.Dependencies) ==> c.Metadata.Dependencies[j] != nil)
+
+// ---- C14 / C11: the chart handed on for a dependency — under its own name or under an alias — is the
+// chart that was loaded: same schema, templates, default values, files; only the metadata is a copy
+// (whose name is the alias when there is one).
+//@ func getAliasDependency
+//@   props C14 C11
+//@   requires dep != nil && (forall j int :: 0 <= j && j < len(charts) ==> charts[j] == nil || charts[j].Metadata != nil)
+//@   ensures [same-chart-content] result != nil ==> (exists j int :: 0 <= j && j < len(charts) && charts[j] != nil && result.Schema == charts[j].Schema && result.Templates == charts[j].Templates && result.Values == charts[j].Values && result.Files == charts[j].Files && result.Raw == charts[j].Raw && result.Lock == charts[j].Lock)
+//@   ensures [a-copy] result != nil ==> fresh(result) && result.Metadata != nil && fresh(result.Metadata)
+//@   ensures [alias-names-the-copy] result != nil && dep.Alias != "" ==> result.Metadata.Name == dep.Alias
+
+// (processDependencyImportValues: only the protocol precondition; its body — a recursion over the
+// dependency tree — is not checked here. ProcessDependencies is entered with a chart that passed
+// validation at load: that precondition binds no call site, it is an assumption.)
+//@ func processDependencyImportValues
+//@   props C11
+//@   trusted
+//@   requires [disabled-dependencies-are-pruned-before-values-are-imported] [caller=ProcessDependencies] [C11] GdepsPruned[c]
+
+//@ func ProcessDependencies
+//@   props C11
+//@   requires [caller=a-validated-chart-is-assumed] c != nil && c.Metadata != nil && (forall j int :: 0 <= j && j < len(c.Metadata.Dependencies) ==> c.Metadata.Dependencies[j] != nil)
